@@ -1,3 +1,4 @@
 SPECIFICATION TSpec
 POSTCONDITION Report
 CHECK_DEADLOCK FALSE
+CONSTANT Deep = FALSE
